@@ -137,7 +137,7 @@ class Outcome:
 class Fam:
     """MyGrad-level view family (M2): the set of tensors MyGrad updates together."""
 
-    __slots__ = ("owner_nid", "members", "born", "owner_ref", "owner_shape", "all_born_same", "__weakref__")
+    __slots__ = ("owner_nid", "members", "born", "owner_ref", "owner_shape", "all_born_same", "hidden_owner", "__weakref__")
 
     def __init__(self, owner_nid, born, owner_tensor, shape):
         self.owner_nid = owner_nid
@@ -145,6 +145,7 @@ class Fam:
         self.born = born
         self.owner_ref = weakref.ref(owner_tensor) if owner_tensor is not None else None
         self.owner_shape = tuple(shape)
+        self.hidden_owner = False
 
 
 class TInfo:
@@ -223,6 +224,7 @@ class World:
         self.trace = []  # (kind, outcome class)
         self.oprecs = {}  # id(op) -> OpRec
         self.last_create = None
+        self.clear_leak_seen = False
         self.scope_stack = []  # model M4: list of (mgr name, saved value)
         # scopes held open outside the call stack (suspended generator / ExitStack / manual
         # __enter__): they can be left in any order relative to scopes of the *other* setting
@@ -468,6 +470,7 @@ class World:
                 # a composite (multi_matmul) handed out a view of an internal result: that hidden
                 # tensor owns the memory and is what .base of this tensor and of its views names
                 fam.owner_ref = weakref.ref(b)
+                fam.hidden_owner = True
             del b
         else:
             fam.members[h] = ids
@@ -1153,7 +1156,13 @@ class World:
         tp = self.tape
         info = self.info[h]
         fam = info.fam
-        if info.ids is None:
+        if info.ids is None and getattr(fam, "hidden_owner", False):
+            # the "owner" is itself a view of a hidden tensor (multi_matmul with a 1-D end operand):
+            # MyGrad treats the update as an update of a view, so the old version stays in the
+            # graph (and whatever fed it receives a zero gradient rather than none)
+            n_el = int(np.prod(fam.owner_shape)) if len(fam.owner_shape) else 1
+            owner_new = tp.apply("scatter", [fam.owner_nid, new], {"ids": np.arange(n_el, dtype=np.int64).reshape(fam.owner_shape)}, tp.nodes[fam.owner_nid].const)
+        elif info.ids is None:
             owner_new = new
         else:
             owner_const = tp.nodes[fam.owner_nid].const
@@ -1301,6 +1310,7 @@ class World:
                 del ga
             del g
         self.last_backward = rec
+        had_creator = {k for k, tt in self.T.items() if tt.creator is not None}
         if live and self.use_tape and not info.const:
             try:
                 self._expect_grads(rec)
@@ -1335,6 +1345,7 @@ class World:
             self._checkpoint(rec)
         if live:
             self._model_clear(h)
+            self._clear_leak_check(had_creator)
         return Outcome("ok")
 
     def _model_clear(self, h):
@@ -1366,6 +1377,27 @@ class World:
         for k, i in self.info.items():
             if i.nid in sev:
                 i.stale = True
+
+    def _clear_leak_check(self, had_creator):
+        """the real clear reached a tensor that the recorded graph (as the functional model has it)
+        does not contain: the C09 root cause (an op recorded before a clear still points at the
+        public tensor that was later updated in place, so clearing walks on through the tensor's
+        NEW creator).  Seen through the public `creator` attribute only.  The families of such
+        tensors are half-forgotten from now on (their base no longer lists its views)."""
+        for k, t in self.T.items():
+            i = self.info[k]
+            if k in had_creator and t.creator is None and not self.tape.nodes[i.nid].severed:
+                self.probe("c09.clear_reached_outside_recorded_graph")
+                self.clear_leak_seen = True
+                fam = i.fam
+                for m in list(fam.members):
+                    if m in self.info:
+                        mi = self.info[m]
+                        nf = Fam(mi.nid, -1, self.T[m], self.T[m].shape)
+                        nf.members[m] = None
+                        mi.fam = nf
+                        mi.ids = None
+                        mi.stale = True
 
     def _checkpoint(self, rec):
         cp = {}
@@ -1542,11 +1574,13 @@ class World:
         if h not in self.T:
             return self._skip("ref")
         self.last_backward = None
+        had_creator = {k for k, tt in self.T.items() if tt.creator is not None}
         try:
             self.T[h].clear_graph()
         except Exception as e:
             return Outcome("unexp", type(e).__name__, str(e)[:200])
         self._model_clear(h)
+        self._clear_leak_check(had_creator)
         return Outcome("ok")
 
     def ev_null_grad(self, ev):
